@@ -5,6 +5,7 @@ CONSTANTS
   Dev_BuiltinIgnoreList = TRUE
   Dev_AddEmptyNameReturns = FALSE
   Dev_QuitRefusedWhenBusy = FALSE
+  Dev_SocketEventStartsAll = FALSE
 INIT Init
 NEXT Next
 CONSTRAINT Progress
